@@ -87,9 +87,6 @@ func cmdCheck(args []string) int {
 	groups := map[string][]*HarnessFile{}
 	var order []string
 	for _, f := range files {
-		if *hfile != "" && filepath.Base(f) != *hfile {
-			continue
-		}
 		h, err := parseHarness(f)
 		if err != nil {
 			fmt.Fprintln(os.Stderr, err)
@@ -176,6 +173,9 @@ func cmdCheck(args []string) int {
 				continue
 			}
 			for _, en := range h.Entries {
+				if *hfile != "" && filepath.Base(h.Path) != *hfile {
+					continue
+				}
 				if *only != "" && en != *only {
 					continue
 				}
